@@ -309,3 +309,45 @@ impl<'g, T> RawShared<'g, T> {
         self.inner.ptr_eq(other.inner)
     }
 }
+
+/// Thin wrappers over `Tagged` for the verification harness, one per alignment class.
+#[cfg(circ_verif)]
+pub mod verif_shim_ptr {
+    use super::*;
+
+    macro_rules! aligned {
+        ($($name:ident $n:literal),*) => {
+            $(#[repr(align($n))] pub struct $name(#[allow(dead_code)] u8);)*
+            /// `op`: 0 tag, 1 high_tag, 2 as_raw, 3 with_tag(x), 4 with_high_tag(x), 5 is_null,
+            /// 6 ptr_eq(x), 7 low_bits, 8 formatted with `{:p}` and parsed back.
+            pub fn tagged_op(align_log2: u32, op: u32, p: usize, x: usize) -> usize {
+                match 1usize << align_log2 {
+                    $($n => tagged_op_t::<$name>(op, p, x),)*
+                    _ => panic!("unsupported alignment"),
+                }
+            }
+        };
+    }
+    aligned!(A1 1, A2 2, A4 4, A8 8, A16 16, A32 32, A64 64, A128 128, A256 256, A512 512,
+             A1024 1024, A2048 2048, A4096 4096);
+
+    fn tagged_op_t<T>(op: u32, p: usize, x: usize) -> usize {
+        let t: Tagged<T> = Tagged::from(p as *mut T);
+        match op {
+            0 => t.tag(),
+            1 => t.high_tag(),
+            2 => t.as_raw() as usize,
+            3 => t.with_tag(x).ptr as usize,
+            4 => t.with_high_tag(x).ptr as usize,
+            5 => t.is_null() as usize,
+            6 => t.ptr_eq(Tagged::from(x as *mut T)) as usize,
+            7 => low_bits::<T>(),
+            8 => {
+                let s = format!("{:p}", t);
+                usize::from_str_radix(s.trim_start_matches("0x"), 16).unwrap()
+            }
+            _ => panic!("unsupported op"),
+        }
+    }
+    pub const HIGH_TAG_WIDTH_V: u32 = HIGH_TAG_WIDTH;
+}
